@@ -78,7 +78,7 @@ func (s c03Shape) n() int {
 }
 
 func (s c03Shape) String() string {
-	return fmt.Sprintf("mw=%d group=%d route=%d action=%v flat=%v late=%v swap=%v autohead=%v informational-statuses=%v handler-types=%d handler-wrapper=%v routes-with-three-method-strings=%v handler-less-nested-groups=%v", s.M, s.G, s.R, s.Action, s.Flat, s.Late, s.Swap, s.Head, s.Info, s.Sig, s.Wrap, s.Multi, s.Hollow)
+	return fmt.Sprintf("mw=%d group=%d route=%d action=%v flat=%v late=%v swap=%v autohead=%v informational-statuses=%v handler-types=%d handler-wrapper=%v routes-with-three-method-strings=%v handler-less-nested-groups=%v extra-stand-ins=%d refused-registrations-around=%v", s.M, s.G, s.R, s.Action, s.Flat, s.Late, s.Swap, s.Head, s.Info, s.Sig, s.Wrap, s.Multi, s.Hollow, s.SwapN, s.Refused)
 }
 
 type c03Ev struct {
@@ -587,7 +587,7 @@ func c03Shapes(maxN int, thorough bool) []c03Shape {
 }
 
 func c03Run(r *core.Run) {
-	r.Rule = "engine E: every handler program = stack shape (app middleware / nested group handlers / route handlers / optional action; handler types func(Context), func(Context) string, func(ResponseWriter, *Request), http.HandlerFunc, func(Context, *Request)) x one behaviour per position (action string over {Next, write, cancel, install a derived context, Next guarded by the handler's own recover} + terminal {return nothing, return \"\", return a string, panic}); each program is one request on a real Flame; the recorded event trace must be accepted by the trace automaton (chain order, at most once, none skipped, onion nesting, automatic advance iff nothing written and not cancelled, Next() completeness) and the response must equal what the trace implies; non-trivial = program with at least one Next() and at least one write/cancel/panic/returned string"
+	r.Rule = "engine E: every handler program = stack shape (app middleware / nested group handlers / route handlers / optional action; handler types func(Context), func(Context) string, func(ResponseWriter, *Request), http.HandlerFunc, func(Context, *Request)) x one behaviour per position (action string over {Next, write, cancel, install a derived context, Next guarded by the handler's own recover} + terminal {return nothing, return \"\", return a string, panic}); each program is one request on a real Flame; stack variants: installed late, swapped by Handlers(), flat groups, AutoHead, informational statuses, a HandlerWrapper, Routes with several method strings, handler-less nested groups, refused Use/Get/Action calls (non-callable argument, recovered) around the accepted ones; the recorded event trace must be accepted by the trace automaton (chain order, at most once, none skipped, onion nesting, automatic advance iff nothing written and not cancelled, Next() completeness) and the response must equal what the trace implies; non-trivial = program with at least one Next() and at least one write/cancel/panic/returned string"
 	r.Assumptions = []string{"an explicit Next() after a write or after a cancel may start the next handler or not (the statement leaves it open); everything else is exact", "no Recovery in the stack (C15 covers it)"}
 	type plan struct {
 		minN, maxN int
@@ -638,7 +638,7 @@ func c03Run(r *core.Run) {
 		}
 		var jobs []job
 		for _, s := range shapes {
-			base := !(s.Flat || s.Late || s.Swap || s.Head || s.Info || s.Sig > 0 || s.Wrap || s.Multi || s.Hollow)
+			base := !(s.Flat || s.Late || s.Swap || s.Head || s.Info || s.Sig > 0 || s.Wrap || s.Multi || s.Hollow || s.Refused)
 			if s.n() < pl.minN || (pl.which == 1 && !base) || (pl.which == 2 && base) {
 				continue
 			}
